@@ -501,6 +501,7 @@ pub struct ObjectIdentifierArc {
 
 impl ObjectIdentifierArc {
     const ITU_T: u128 = 0;
+    const CCITT: u128 = 0;
     const ISO: u128 = 1;
     const JOINT_ISO_ITU_T: u128 = 2;
     const JOINT_ISO_CCITT: u128 = 2;
@@ -518,6 +519,7 @@ impl ObjectIdentifierArc {
     pub(crate) fn well_known(name: Option<&String>, root: Option<u8>) -> Option<u128> {
         match (root, name.map(|s| s.as_str())) {
             (_, Some("itu-t")) => Some(Self::ITU_T),
+            (_, Some("ccitt")) => Some(Self::CCITT),
             (_, Some("iso")) => Some(Self::ISO),
             (_, Some("joint-iso-itu-t")) => Some(Self::JOINT_ISO_ITU_T),
             (_, Some("joint-iso-ccitt")) => Some(Self::JOINT_ISO_CCITT),
